@@ -16,6 +16,7 @@ import GraphiqModel.Proofs.StateToGraphPairMatrix
 import GraphiqModel.Proofs.StateToGraphSpectrum
 import GraphiqModel.Proofs.GraphStateGroup
 import GraphiqModel.Proofs.InvTotal
+import GraphiqModel.Proofs.SweepGraphDensity
 namespace Graphiq.C08
 open Graphiq Graphiq.PRow Graphiq.Tab Graphiq.STab
 
@@ -658,5 +659,18 @@ theorem state_to_graph_returns_iff_inverse_circuit_returns (t : STab) (hn : 0 < 
   have h3 := STab.canonicalForm_returns_iff t hg
   have h4 : (0 < t.n ∧ IsStabilizerState t) ↔ t.Indep := ⟨fun h => h.2.2, fun h => ⟨hn, hg, h⟩⟩
   exact ⟨h1.trans (h4.trans h2.symm), h1.trans (h4.trans h3.symm)⟩
+
+/-- **graph → density matrix in the exact executable model**: the ℚ[i] matrix `DM.stabilizerDensity` (C17's exact model of the
+    stabilizer → density-matrix converter, `∏ (1 + g_i)/2` over the stabilizer rows) of the graph-state Clifford tableau
+    `LC.graphTab n adj` (C09 / C11: destabilizers `Z_i`, stabilizers `X_i Z_{N(i)}`) represents — in the sense of the bridge
+    `Hilbert.Rep` of C01 / C17, entry `(i, j)` ↔ big-endian bit strings — the graph-state density matrix `|G⟩⟨G|` of this file -/
+theorem exact_density_of_graph_tableau_is_graph_state (n : Nat) (adj : Adj) (hsym : ∀ i j, i < n → j < n → adj i j = adj j i)
+    (hirr : ∀ i, i < n → adj i i = false) :
+    Hilbert.Rep n (DM.stabilizerDensity (LC.graphTab n adj)) (graphStateMat n adj) :=
+  Sweep.rep_graph_density n adj hsym hirr
+
+/-- the hypotheses of the cross-reference theorems are met by the triangle graph state -/
+example : 0 < (graphSTab 3 tri).n ∧ (graphSTab 3 tri).Good ∧ (∀ i, i < 3 → tri i i = false) :=
+  ⟨by decide, graphSTab_good 3 tri tri_symm, by decide⟩
 
 end Graphiq.C08
